@@ -170,6 +170,16 @@ class FakeS3:
         req = _Request(body)
         ev = self.meta.events
         data = b''
+        try:
+            return self._consume_body_inner(op_name, body, rec, req, ev, sign_reads, resends, send_reads, cut)
+        except BaseException:
+            # reading the body failed on the client side (source error, interrupted
+            # reader): the request never reached the service and is over
+            self._end(rec, 'client-abort')
+            raise
+
+    def _consume_body_inner(self, op_name, body, rec, req, ev, sign_reads, resends, send_reads, cut):
+        data = b''
         for attempt in range(resends + 1):
             ev.emit_request_created(req, op_name, 'first')      # disable progress
             if sign_reads and hasattr(body, 'read'):
